@@ -164,6 +164,7 @@ class Operations(Unit):
         else:
             e = E(**dict(init))
         other = E({"x": vals[3], "y": 7})
+        self.other_empty = E({})  # a second enumeration that was created empty and is never touched
         m = Model(init)
         log = []
         for op in case["ops"]:
@@ -198,6 +199,8 @@ class Operations(Unit):
         keys = list(E.keys.fget(e))
         yield "C18", "final:names-agree", keys == list(m.d.keys())
         yield "C18", "frame:other-enumeration-untouched", list(E.keys.fget(other)) == ["x", "y"] and other.y == 7 and other.x is vals[3]
+        yield "C18", "frame:untouched-empty-enumeration-still-empty", list(E.keys.fget(self.other_empty)) == []
+        yield "C18", "frame:an-enumeration-created-empty-afterwards-is-empty", list(E.keys.fget(E({}))) == []
         for n in NAMES:
             yield "C18", "final:attribute-%s-present-iff-in-dictionary" % n, hasattr(e, n) == (n in m.d)
 
